@@ -67,7 +67,7 @@ func analysed(path string) bool {
 }
 
 // source kinds; the order is the constructor order of Determinism/Graph.v [kind]
-var kinds = []string{"Clock", "Entropy", "HostEnv", "MapRange", "Goroutine", "Select", "Float", "TaintedGlobal", "GlobalWrite"}
+var kinds = []string{"Clock", "Entropy", "HostEnv", "MapRange", "Goroutine", "Select", "Float", "TaintedGlobal", "GlobalWrite", "SharedMapWrite"}
 
 type source struct {
 	Fn     string `json:"fn"`
@@ -332,6 +332,10 @@ func main() {
 				case *ssa.MapUpdate:
 					if g := globalRoot(v.Map); g != nil && !isInit(f) && analysed(pkgOfGlobal(g)) {
 						add("GlobalWrite", "write to package-level map "+g.String(), v.Pos())
+					} else if g == nil && !isInit(f) {
+						if root, local := mapOrigin(v.Map, 0); !local {
+							add("SharedMapWrite", "update of a map not created by this function ("+root+")", v.Pos())
+						}
 					}
 				}
 				if ci, ok := in.(ssa.CallInstruction); ok {
@@ -657,6 +661,115 @@ func globalRoot(v ssa.Value) *ssa.Global {
 		}
 	}
 	return nil
+}
+
+// mapOrigin traces the map operand of a map update back to where the map comes from.  Local = created
+// by this function (make / literal, possibly inside a struct or array it allocated itself, or a
+// variable of the enclosing function captured by a closure).  Anything else — a field of the
+// receiver or of a parameter, a parameter, the result of a call — is memory that outlives the call
+// and is not the KV store: process-local state (a keeper-level cache survives a rolled-back
+// transaction and is lost at a restart).
+func mapOrigin(v ssa.Value, depth int) (string, bool) {
+	if depth > 12 {
+		return "deep", false
+	}
+	switch x := v.(type) {
+	case *ssa.MakeMap:
+		return "make", true
+	case *ssa.Alloc:
+		return allocOrigin(x, -1, depth)
+	case *ssa.FreeVar:
+		if depth <= 1 { // the map variable itself is captured (depth 1: through the load)
+			return "captured local", true
+		}
+		return "field of captured " + x.Name(), false
+	case *ssa.Phi:
+		for _, e := range x.Edges {
+			if r, ok := mapOrigin(e, depth+1); !ok {
+				return r, false
+			}
+		}
+		return "phi", true
+	case *ssa.Lookup:
+		return mapOrigin(x.X, depth+1)
+	case *ssa.UnOp:
+		if x.Op == token.MUL {
+			return mapOrigin(x.X, depth+1)
+		}
+	case *ssa.FieldAddr:
+		if a, ok := x.X.(*ssa.Alloc); ok {
+			if r, ok := allocOrigin(a, x.Field, depth); !ok {
+				return "field " + fieldName(x.X.Type(), x.Field) + " <- " + r, false
+			}
+			return "field of a local", true
+		}
+		if r, ok := mapOrigin(x.X, depth+2); ok {
+			return r, true
+		}
+		return "field " + fieldName(x.X.Type(), x.Field), false
+	case *ssa.Field:
+		if r, ok := mapOrigin(x.X, depth+2); ok {
+			return r, true
+		}
+		return "field " + fieldName(x.X.Type(), x.Field), false
+	case *ssa.IndexAddr:
+		return mapOrigin(x.X, depth+2)
+	case *ssa.Parameter:
+		return "parameter " + x.Name(), false
+	case *ssa.Call:
+		return "result of a call", false
+	case *ssa.Extract:
+		return "result of a call", false
+	case *ssa.TypeAssert:
+		return mapOrigin(x.X, depth+1)
+	case *ssa.ChangeType:
+		return mapOrigin(x.X, depth+1)
+	case *ssa.MakeInterface:
+		return mapOrigin(x.X, depth+1)
+	case *ssa.Const:
+		return "nil", true
+	}
+	return fmt.Sprintf("%T", v), false
+}
+
+// allocOrigin: a local variable is local memory only as far as what was stored INTO it is: a value
+// receiver or parameter spilled into a local (`t0 = local Keeper; *t0 = k`) still refers to the
+// caller's maps.  field >= 0: only stores to that field (and whole-value stores) matter.
+func allocOrigin(a *ssa.Alloc, field int, depth int) (string, bool) {
+	if a.Referrers() == nil {
+		return "local variable", true
+	}
+	for _, ref := range *a.Referrers() {
+		switch r := ref.(type) {
+		case *ssa.Store:
+			if r.Addr == a {
+				if s, ok := mapOrigin(r.Val, depth+1); !ok {
+					return s, false
+				}
+			}
+		case *ssa.FieldAddr:
+			if (field < 0 || r.Field == field) && r.Referrers() != nil {
+				for _, rr := range *r.Referrers() {
+					if st, ok := rr.(*ssa.Store); ok && st.Addr == r {
+						if s, ok := mapOrigin(st.Val, depth+1); !ok {
+							return s, false
+						}
+					}
+				}
+			}
+		}
+	}
+	return "local variable", true
+}
+
+func fieldName(t types.Type, i int) string {
+	if p, ok := t.Underlying().(*types.Pointer); ok {
+		t = p.Elem()
+	}
+	if st, ok := t.Underlying().(*types.Struct); ok && i < st.NumFields() {
+		return types.TypeString(t, shortQual) + "." + st.Field(i).Name()
+	}
+	return "?"
 }
 
 // sliceSource walks the operands of v (within the initialiser) looking for a call of a source.
